@@ -235,7 +235,10 @@ def dump_part(part, st_str=lambda nd: ""):
 
 # ---------------------------------------------------------------- boxes
 def gen_box(rnd, d, mode=None):
-    mode = mode or rnd.choice(["unit", "shift", "neg", "scale", "pow2", "arb", "pow2", "tiny", "zeroedge", "far"])
+    mode = mode or rnd.choice(["unit", "shift", "neg", "scale", "pow2", "arb", "pow2", "tiny", "zeroedge", "far", "cube"])
+    if mode == "cube":            # the same interval on every axis (written by users as [[lo, hi]] * d)
+        a = float(rnd.randint(-20, 20)) * rnd.choice([1.0, 0.5, 0.25]); w = rnd.choice([1.0, 2.0, 10.0, 0.5, 3.0])
+        return [[a, a + w] for _ in range(d)], mode
     box = []
     for _ in range(d):
         if mode == "unit":
